@@ -36,6 +36,8 @@ Print Assumptions C19_merge_ok.
 (* ---------------- (2) model = statement-level spec ---------------- *)
 
 (* adjust: the loop is exactly "retime every caption, keep order, drop the negative starts" *)
+(* semi-definitional (audit w7): the RHS uses the model's own `retime`; the statement-level version is
+   C19_adjust_meets_spec below *)
 Theorem C19_adjust_filter_map : forall skew off caps,
   adjust_lang skew off caps = filter (fun c => Qle_bool 0 (c_start c)) (map (retime skew off) caps).
 Proof. exact adjust_lang_filter_map. Qed.
@@ -265,11 +267,12 @@ Print Assumptions C19_merge_idempotent_every_input.
 Theorem C19_merge_keeps_text : forall caps m, merge_lang caps = Ok m -> lang_text m = lang_text caps.
 Proof. exact merge_lang_keeps_text. Qed.
 Print Assumptions C19_merge_keeps_text.
-(* one caption per maximal run, in the order of the runs, carrying the times of the run's first caption *)
-Theorem C19_merge_heads_in_order : forall caps,
+(* DEFINITIONAL reading aid (spec = spec: unfolds spec_merge_gen; audit w7): one caption per maximal run, in the order of
+   the runs, carrying the times of the run's first caption *)
+Theorem C19_merge_heads_in_order_unfold : forall caps,
   map (fun c => (c_start c, c_end c)) (spec_merge_gen caps) = map (fun r => (c_start (fst r), c_end (fst r))) (runs caps).
 Proof. exact merge_heads_in_order. Qed.
-Print Assumptions C19_merge_heads_in_order.
+Print Assumptions C19_merge_heads_in_order_unfold.
 (* merge commutes with adjust for a non-zero skew when adjust drops nothing *)
 Theorem C19_merge_adjust_commute : forall sk off caps m, ~ sk == 0 -> forallb (survives sk off) caps = true ->
   merge_lang caps = Ok m -> merge_lang (adjust_lang sk off caps) = Ok (adjust_lang sk off m).
